@@ -5,7 +5,7 @@ Scope (everything is generated from ctx.seed only; budgets are counts, never wal
 EXHAUSTIVE
   * every hypergraph whose node set is {0..N-1}, 1 <= N <= 4, with every set of at most K distinct
     hyperedges of sizes 1..N (the nodes not covered stay as isolated nodes; the edgeless ones are degenerate).
-      quick    : K = 4 for labels 0..N-1 unweighted, K = 3 for the five other variants below
+      quick    : K = 3 for all six variants below
       thorough : K = 5 for labels 0..N-1 unweighted, K = 4 for the five other variants; plus N = 5 with K = 2
     variants = {labels 0..N-1, non-contiguous ints (20,5,30,10,40), strings ("n3","a","n10","B","zz")} x
                {unweighted, weighted (weights 0.5, 2, 3, 2.5, 7 by position)}.  The relabelling is not
@@ -30,7 +30,19 @@ Clauses (one ctx.check each; all taken from the statement of C09)
   under that mapping; zero diagonal; for unweighted hypergraphs the per-order variants for every order 0..max+1
   (present or absent); Laplacian_d = d * D_d - A_d entry by entry, symmetric, zero row sums; dual (e,f) = 1 iff
   e and f share a node; tensor = symmetric indicator; temporal matrix at t = adjacency of the hyperedges at t;
-  return_mapping=False returns the same matrix.
+  return_mapping=False returns the same matrix (the Hypergraph methods are called with return_mapping=True only).
+  degree_matrix (whose contract is only implicit in the statement, "the order-d degree matrix") is evaluated under the
+  two mappings the library itself returns for that order: incidence_matrix_by_order(keep_isolated_nodes=True) - the
+  one the Laplacian uses - and (..=False), the latter under its own key.
+
+Failure keys: "<function>:<clause>", except
+  * "<function>:does not raise on admissible input:labels 0..N-1" / "...:labels not 0..N-1" - an exception on an
+    input the property covers is a failed clause; the suffix keeps the known KeyError of degree_matrix /
+    laplacian_* on labels other than 0..N-1 apart from any exception on plain labels;
+  * an exception of the return_mapping=False call is reported under the clause "return_mapping=False returns the
+    same matrix" (one defect, one key);
+  * "linalg.degree_matrix:partial mapping" (mapping of the non-isolated nodes only);
+  * "linalg.adjacency_matrix:<entry clause>:>=256 common hyperedges" for the stress input.
 
 Oracle: plain Python loops over h.get_nodes() / h.get_edges() / h.get_weight() (th.get_edges() for temporal):
   membership tests and counts over frozensets, nothing else.  No matrix product, no encoder.  Columns are the
@@ -206,6 +218,12 @@ class _Run:
 
     def __init__(self, rec, spec):
         self.rec, self.spec = rec, spec
+        self.labels = "labels 0..N-1"
+
+    def set_nodes(self, nodes):
+        nodes = list(nodes)
+        rng = all(type(a) is int for a in nodes) and set(nodes) == set(range(len(nodes)))
+        self.labels = "labels 0..N-1" if rng else "labels not 0..N-1"
 
     def call(self, fn, thunk, call):
         try:
@@ -214,10 +232,31 @@ class _Run:
                 r = thunk()
         except Exception as ex:  # the statement covers this input: raising is a failed clause, not a driver crash
             self.rec.check(False, fn, RAISE, self.spec, call, expected="a result",
-                           observed=f"{type(ex).__name__}: {ex}")
+                           observed=f"{type(ex).__name__}: {ex}", key=f"{fn}:{RAISE}:{self.labels}")
             return False, None
         self.rec.check(True, fn, RAISE, self.spec, call)
         return True, r
+
+    def nomap(self, fn, thunk, call, same, expected):
+        """The call without a mapping returns the matrix that was checked under the mapping (one clause: a raise and a
+        different result are the same kind of failure)."""
+        try:
+            with warnings.catch_warnings():
+                warnings.simplefilter("ignore")
+                r = thunk()
+        except Exception as ex:
+            return self.check(False, fn, NOMAP, call, expected=expected, observed=f"{type(ex).__name__}: {ex}")
+        ok, shown = same(r)
+        return self.check(ok, fn, NOMAP, call, expected=expected, observed=shown)
+
+    def nomap_matrix(self, fn, thunk, call, D):
+        def same(r):
+            try:
+                R = _dense(r)
+                return _same(R, D), R.tolist()
+            except Exception:
+                return False, repr(r)
+        return self.nomap(fn, thunk, call, same, D.tolist())
 
     def check(self, cond, fn, clause, call=None, expected=None, observed=None, key=None):
         return self.rec.check(cond, fn, clause, self.spec, call, expected, observed, key)
@@ -266,6 +305,7 @@ def check_hg(rec, spec):
     esets = [frozenset(e) for e in edges]
     nodeset = set(nodes)
     N, E = len(nodes), len(edges)
+    run.set_nodes(nodes)
     rec.case(spec, nontrivial=E >= 1)
     rec.count("hypergraphs")
     if weighted:
@@ -288,9 +328,7 @@ def check_hg(rec, spec):
                 run.matrix(fn, "entry (i,e) = 1 iff node i in hyperedge e", None, D, (N, E),
                            lambda i, j: 1 if m[i] in esets[j] else 0)
             if fn.startswith("linalg."):
-                ok2, r2 = run.call(fn, lambda: f(), "return_mapping=False")
-                if ok2:
-                    run.check(_same(_dense(r2), D), fn, NOMAP, expected=D.tolist(), observed=_dense(r2).tolist())
+                run.nomap_matrix(fn, lambda: f(), "return_mapping=False", D)
     for fn, f in (("linalg.incidence_matrix", lambda **kw: L.incidence_matrix(h, **kw)),
                   ("Hypergraph.incidence_matrix", lambda **kw: h.incidence_matrix(**kw))):
         ok, r = run.call(fn, lambda: _pair(f(return_mapping=True)), "return_mapping=True")
@@ -300,9 +338,7 @@ def check_hg(rec, spec):
                 run.matrix(fn, "entry (i,e) = weight of e if node i in e else 0", None, D, (N, E),
                            lambda i, j: wts[j] if m[i] in esets[j] else 0)
             if fn.startswith("linalg."):
-                ok2, r2 = run.call(fn, lambda: f(), "return_mapping=False")
-                if ok2:
-                    run.check(_same(_dense(r2), D), fn, NOMAP, expected=D.tolist(), observed=_dense(r2).tolist())
+                run.nomap_matrix(fn, lambda: f(), "return_mapping=False", D)
 
     # ---- adjacency
     for fn, f in (("linalg.adjacency_matrix", lambda **kw: L.adjacency_matrix(h, **kw)),
@@ -318,9 +354,7 @@ def check_hg(rec, spec):
             run.matrix(fn, "entry (e,f) = 1 iff e and f share a node", None, D, (E, E),
                        lambda i, j: 1 if esets[i] & esets[j] else 0)
             if fn.startswith("linalg."):
-                ok2, r2 = run.call(fn, lambda: f(), "return_mapping=False")
-                if ok2:
-                    run.check(_same(_dense(r2), D), fn, NOMAP, expected=D.tolist(), observed=_dense(r2).tolist())
+                run.nomap_matrix(fn, lambda: f(), "return_mapping=False", D)
 
     # ---- per-order variants, for every order 0..max+1 (present and absent)
     maxord = max([len(e) for e in edges], default=0)  # = max order + 1
@@ -353,9 +387,7 @@ def check_hg(rec, spec):
                            (len(m), len(cols)), lambda i, j: 1 if m[i] in esets[cols[j]] else 0)
             rawmaps[keep] = (r[1], m)
             if not keep:  # all defaults: keep_isolated_nodes=False, return_mapping=False
-                ok2, r2 = run.call(fn, lambda: L.incidence_matrix_by_order(h, d), f"order={d}, defaults")
-                if ok2:
-                    run.check(_same(_dense(r2), D), fn, NOMAP, cl, expected=D.tolist(), observed=_dense(r2).tolist())
+                run.nomap_matrix(fn, lambda: L.incidence_matrix_by_order(h, d), f"order={d}, all defaults", D)
         if weighted:
             continue  # the statement defines the remaining per-order matrices for unweighted hypergraphs only
         cl = f"order={d}"
@@ -440,9 +472,7 @@ def _adjacency(run, fn, f, lower, upper, N, count, cl=None, key_suffix=None):
     if tuple(D.shape) == (n, n):
         diag = [D[i][i].item() for i in range(n)]
         run.check(all(_close(x, 0) for x in diag), fn, "zero diagonal", cl, expected=[0] * n, observed=diag)
-    ok2, r2 = run.call(fn, lambda: f(), _join(cl, "return_mapping=False"))
-    if ok2:
-        run.check(_same(_dense(r2), D), fn, NOMAP, cl, expected=D.tolist(), observed=_dense(r2).tolist())
+    run.nomap_matrix(fn, lambda: f(), _join(cl, "return_mapping=False"), D)
     return m
 
 
@@ -499,6 +529,7 @@ def check_temporal(rec, spec):
     run = _Run(rec, spec)
     th = build_temporal(spec)
     nodeset = set(th.get_nodes())
+    run.set_nodes(nodeset)
     tedges = [(t, frozenset(e)) for t, e in th.get_edges()]
     weighted = bool(th.is_weighted())
     times = sorted({t for t, _ in tedges})
@@ -537,11 +568,15 @@ def check_temporal(rec, spec):
             if tuple(D.shape) == (n, n):
                 diag = [D[i][i].item() for i in range(n)]
                 run.check(all(_close(x, 0) for x in diag), fn, "zero diagonal", clt, expected=[0] * n, observed=diag)
-        ok2, r2 = run.call(fn, lambda: f(), _join(cl, "return_mapping=False"))
-        if ok2:
-            same = isinstance(r2, dict) and set(r2) == set(dense) and all(_same(_dense(r2[t]), dense[t]) for t in dense)
-            run.check(same, fn, NOMAP, cl, expected={str(t): dense[t].tolist() for t in dense},
-                      observed={str(t): _dense(r2[t]).tolist() for t in r2} if isinstance(r2, dict) else repr(r2))
+        def same(r2):
+            if not isinstance(r2, dict):
+                return False, repr(r2)
+            try:
+                shown = {str(t): _dense(r2[t]).tolist() for t in r2}
+                return set(r2) == set(dense) and all(_same(_dense(r2[t]), dense[t]) for t in dense), shown
+            except Exception:
+                return False, repr(r2)
+        run.nomap(fn, lambda: f(), _join(cl, "return_mapping=False"), same, {str(t): dense[t].tolist() for t in dense})
 
     one("linalg.temporal_adjacency_matrix", lambda **kw: L.temporal_adjacency_matrix(th, **kw), None, None)
     one("TemporalHypergraph.temporal_adjacency_matrix", lambda **kw: th.temporal_adjacency_matrix(**kw), None, None)
@@ -669,7 +704,7 @@ def _work(chunk):
 def run(ctx):
     _lib()  # import the tree under check once, before forking
     if ctx.quick:
-        k_plain, k_other, caps, tn, n_rand, n_rand_t = 4, 3, {N: (4, 3) for N in (1, 2, 3, 4)}, 3, 300, 100
+        k_plain, k_other, caps, tn, n_rand, n_rand_t = 3, 3, {N: (3, 3) for N in (1, 2, 3, 4)}, 3, 300, 100
     else:
         k_plain, k_other, caps, tn, n_rand, n_rand_t = 5, 4, {N: (5, 4) for N in (1, 2, 3, 4)}, 4, 4000, 1200
         caps[5] = (2, 2)
